@@ -21,6 +21,9 @@ HORIZON = 1_500_000_000        # anything above is a kernel stamp
 NS = 1_000_000_000
 
 
+TICKS = [0]     # logical ticks consumed by destroyed worlds of this process
+
+
 class HarnessError(Exception):
     """Something went wrong in the simulator itself (never a VIOLATION)."""
 
@@ -315,4 +318,8 @@ class World:
                              follow_symlinks=False)
 
     def destroy(self):
+        try:
+            TICKS[0] += read_clock(self.root)
+        except (OSError, ValueError):
+            pass
         shutil.rmtree(self.root, ignore_errors=True)
